@@ -248,7 +248,15 @@ ROUND5 = {
  "C08": ("", "Round 5: only null entries are dismissed by the time scan (R8.14); an undecodable entry does not end the file (R8.15); the layout candidates are returned only after every by-size test (R8.16)."),
  "C10": ("", "Round 5: no shortcut from the file's modification time (R10.9 lift of C03 R3.9)."),
  "C12": ("", "Round 5: the datetime search sees both pieces of a range that spans two blocks (R12.8); the stored-line shortcut of find_line is not weakened (R12.9)."),
+ "C09": ("", "Round 5: the journal worker reads the whole journal - no mtime shortcut, loop ends only on Done/Err (R9.10 lifts of C03 R3.9, C06 R6.7, C07 R7.12)."),
+ "C13": ("", "Round 5: the --prepend-tz value resolves to the offset it denotes (R13.14 lift); no piece of a multi-line message goes unwritten (R13.15)."),
+ "C14": ("", "Round 5: a bound on the trailing-zone-name scan admits the longest name of the zone table (R14.13)."),
+ "C15": ("", "Round 5: only a full resolution counts as the resolved name, a classification by the found name is accepted as a fallback only (R15.5)."),
+ "C16": ("; path-sensitive evaluation of the suffix match per literal", "Round 5: each compression suffix records its own container whatever the shape of the match (R16.11); no decision depends on a recursion counter (R16.12)."),
+ "C17": ("", "Round 5: blocks are released in a loop over the line's parts (R17.4 clause)."),
+ "C19": ("", "Round 5: the printers write everything the summary counts (R19.12 lifts of C13 R13.13/R13.15, C08 R8.13)."),
 }
+ROUND5["C04"] = ("", ROUND5["C04"][1] + " A zone name cannot be the beginning of a longer word (R4.14).")
 for _pid, (_t, _x) in ROUND5.items():
     if _pid in CLAIMS:
         _tech, _text, _ref = CLAIMS[_pid]
